@@ -152,8 +152,11 @@ func maliciousHandshake(t *testing.T, rep *kit.Report, env kit.Env, evals, nontr
 				var pv any
 				done := false
 				go func() {
-					_, v := kit.Try(func() { _, _ = r.Peering().VerifSetupLink(ep, nil, rDials) })
-					pv = v
+					if rDials {
+						_, pv = kit.Try(func() { _, _ = r.Peering().VerifSetupLink(ep, nil, true) })
+					} else {
+						_, pv = kit.Accept(r, ep)
+					}
 					done = true
 				}()
 				synctest.Wait()
